@@ -1,2 +1,83 @@
-(** C02 - property theorems (placeholder while the proofs are being written) *)
+(** C02 - channel timelines are gap-free, non-overlapping and clock-aligned.
+    Property theorems only; every proof is [exact] of a lemma of Proofs/. *)
+From Coq Require Import ZArith List Bool.
 From PV Require Import Model.Base Model.Sched Model.Chan Model.Seq Model.SeqSnap.
+From PV Require Import Proofs.SchedInv Proofs.SchedOps Proofs.SeqInv Proofs.DurationSpec.
+Import ListNotations.
+Open Scope Z_scope.
+
+(** Every reachable state (any device configuration with positive clock
+    periods and minimum durations, any register, any history of calls,
+    failing calls included): every channel timeline starts with the initial
+    target (-1, 0), each later instruction starts where the previous one ends,
+    all boundaries are non-negative multiples of the channel's clock period,
+    a pulse slot is exactly as long as its pulse, delays and non-zero retargets
+    last at least the minimum duration, and no instruction ends after the
+    device's maximum sequence duration. *)
+Theorem C02_timelines_tiled :
+  forall (v : senv) (ops : list op),
+    senv_ok v -> Forall (chan_ok (env_of v)) (q_sched (run v ops)).
+Proof. exact run_ok. Qed.
+Print Assumptions C02_timelines_tiled.
+
+(** Instruction times never move: one more call (successful or not) leaves
+    every existing channel in place and only appends instructions to it. *)
+Theorem C02_times_never_move :
+  forall (v : senv) (s : seq) (o : op),
+    senv_ok v -> seq_ok v s ->
+    sxp v (q_sched s) (q_sched (fst (step v s o))) /\ seq_ok v (fst (step v s o)).
+Proof. exact step_ok. Qed.
+Print Assumptions C02_times_never_move.
+
+Theorem C02_channel_only_grows :
+  forall (v : senv) (n : Z) (s s' : sched) (c : chan),
+    sxp v s s' -> find_chan n s = Some c ->
+    exists c', find_chan n s' = Some c' /\ chan_ext (env_of v) c c'.
+Proof. exact sxp_find. Qed.
+Print Assumptions C02_channel_only_grows.
+
+(** The reported duration of a channel is the end of its newest instruction,
+    which is the latest end of all its instructions. *)
+Theorem C02_duration_is_last_end :
+  forall (e : env) (c : chan) (s : slot) (r : list slot),
+    chan_ok e c -> ch_slots c = s :: r ->
+    ch_duration c false = s_tf s /\
+    forall x, In x (ch_slots c) -> s_tf x <= ch_duration c false.
+Proof. exact duration_is_max_end. Qed.
+Print Assumptions C02_duration_is_last_end.
+
+(** With the pending fall time: the end of the last instruction or the end of
+    the ramp-down of the most recent pulse, whichever is later - provided no
+    pulse's fall time exceeds twice the channel's rise time, which is what the
+    early exit of the implementation's backwards scan assumes. *)
+Theorem C02_duration_with_fall :
+  forall (e : env) (c : chan),
+    chan_ok e c ->
+    falls_bounded (2 * c_rise (ch_cfg c)) (in_eom c) (ch_slots c) ->
+    ch_duration c true =
+    match last_pulse_slot false (ch_slots c) with
+    | Some (sl, p) => Z.max (ch_duration c false) (s_tf sl + pfall (in_eom c) p)
+    | None => ch_duration c false
+    end.
+Proof. exact duration_with_fall_spec. Qed.
+Print Assumptions C02_duration_with_fall.
+
+(** The sequence duration is the maximum over its channels. *)
+Theorem C02_sequence_duration_is_max :
+  forall (s : sched) (fall : bool) (m : Z),
+    sched_duration s None fall = Ok m ->
+    (forall c, In c s -> ch_duration c fall <= m) /\
+    (m = 0 \/ exists c, In c s /\ m = ch_duration c fall).
+Proof. exact sequence_duration_is_max. Qed.
+Print Assumptions C02_sequence_duration_is_max.
+
+(** Durations accepted by a channel: rounded up to the next clock multiple,
+    unchanged when already one. *)
+Theorem C02_validate_duration :
+  forall (g : ccfg) (d d' : Z),
+    cfg_ok g -> validate_duration g d = Ok d' ->
+    c_min g <= d /\ d <= d' /\ d' < d + c_clock g /\ (c_clock g | d') /\
+    ((c_clock g | d) -> d' = d) /\
+    match c_max g with Some m => d <= m | None => True end.
+Proof. exact validate_duration_spec. Qed.
+Print Assumptions C02_validate_duration.
